@@ -27,8 +27,10 @@ IMPLIES = Const("implies", TFun(BoolType, BoolType, BoolType))
 
 
 class Gen:
-    def __init__(self, rng):
+    def __init__(self, rng, share=0.0):
         self.rng = rng
+        self.share = share      # probability of re-using a Python object (DAG sharing across binder depths)
+        self.pool = {}          # (type, type of Bound 0 or None) -> terms that mention at most Bound 0
 
     # ---- types
     def base(self):
@@ -61,6 +63,20 @@ class Gen:
 
     # ---- terms of a given type under a binder context (list of types, innermost first)
     def term(self, T, depth=3, ctx=()):
+        """Possibly re-use an earlier OBJECT: terms generated under a context of length <= 1 only mention
+        Bound 0, so the same object can sit directly under binders at different depths."""
+        rng = self.rng
+        if self.share and depth >= 1 and rng.random() < self.share:
+            key = (repr(T), repr(ctx[0]) if ctx else None)
+            bucket = self.pool.setdefault(key, [])
+            if bucket and rng.random() < 0.6:
+                return rng.choice(bucket)
+            t = self.term_fresh(T, min(depth, 2), tuple(ctx[:1]))
+            bucket.append(t)
+            return t
+        return self.term_fresh(T, depth, ctx)
+
+    def term_fresh(self, T, depth=3, ctx=()):
         rng = self.rng
         cands = [i for i, S in enumerate(ctx) if S == T]
         r = rng.random()
